@@ -57,6 +57,7 @@ type Glue interface {
 	NewLexerFile(path string) (Lexer, error)
 	NewParser() Parser
 	MakeToken(name, lit string, off, line, col int) interface{}
+	MutateToken(x interface{})
 	TokInfo(x interface{}) (TokInfo, bool)
 	ErrInfo(x interface{}) (ErrInfo, bool)
 }
@@ -75,10 +76,13 @@ type Input struct {
 	UseTokens bool      `json:"use_tokens,omitempty"`
 	Label     string    `json:"label,omitempty"`     // valid | bad | recover | deep (informational)
 	FromFile  bool      `json:"from_file,omitempty"` // the lexer is created with NewLexerFile on a file holding Text
+	Spelling  int       `json:"spelling,omitempty"`  // which of several equivalent spellings of the file's path is used (dir/f, dir/./f, dir//f)
 	Cache     bool      `json:"cache,omitempty"`     // the scanner hands out the SAME token objects every time this input is parsed by this client (a replaying scanner)
 }
 
 type Fault struct {
+	CtxSwapAt  int    `json:"ctx_swap_at,omitempty"`   // not a fault: the action at/after this $Context-using call replaces the parser's Context
+	MutateToks bool   `json:"mutate_tokens,omitempty"` // not a fault: actions modify the token objects they are given (after logging them)
 	ActionCall int    `json:"action_call,omitempty"`
 	Kind       string `json:"kind,omitempty"` // error | panic
 	ScanPanic  int    `json:"scan_panic,omitempty"`
@@ -109,9 +113,11 @@ type Job struct {
 	FaultKinds   []string      `json:"fault_kinds,omitempty"`
 	Ops          []Op          `json:"ops,omitempty"`
 	Tasks        []TaskSpec    `json:"tasks,omitempty"`
-	Free         bool          `json:"free,omitempty"`  // c17: tasks run as real parallel goroutines (observation; used when generated code has goroutines/channels of its own)
-	Cold         bool          `json:"cold,omitempty"`  // c17: the scheduled run is the first thing this process does with the generated code (no solo run before it)
-	Reuse        bool          `json:"reuse,omitempty"` // c03: one parser object serves the whole enumeration
+	Free         bool          `json:"free,omitempty"`          // c17: tasks run as real parallel goroutines (observation; used when generated code has goroutines/channels of its own)
+	Cold         bool          `json:"cold,omitempty"`          // c17: the scheduled run is the first thing this process does with the generated code (no solo run before it)
+	Reuse        bool          `json:"reuse,omitempty"`         // c03: one parser object serves the whole enumeration
+	CtxSwap      int           `json:"ctx_swap,omitempty"`      // c03: actions replace the parser's Context from this $Context-using call on
+	MutateToks   bool          `json:"mutate_tokens,omitempty"` // c03: actions modify the tokens they are given
 	Schedule     gsim.Schedule `json:"schedule,omitempty"`
 }
 
@@ -133,7 +139,8 @@ type JobResult struct {
 	Race       bool           `json:"race,omitempty"`
 	RaceText   string         `json:"race_text,omitempty"`
 	Harness    string         `json:"harness_error,omitempty"`
-	Digest     string         `json:"digest,omitempty"` // hash of every outcome observed (determinism self-test)
+	Digest     string         `json:"digest,omitempty"`      // hash of every outcome observed (determinism self-test)
+	TaskDigest []string       `json:"task_digest,omitempty"` // c17: per task, hash of what it observed under the schedule
 }
 
 // ---- context objects ----
@@ -298,6 +305,27 @@ func (e *env) runParse(p Parser, lex Lexer, in *Input, f *Fault, sess *act.Sessi
 	}
 	sess.Begin(fc, fk)
 	sess.Render = e.render(sess)
+	savedCtx := sess.Ctx
+	if f != nil && f.CtxSwapAt > 0 {
+		sess.SwapAt = f.CtxSwapAt
+		sess.SetCtx = p.SetContext
+		sess.NextCtx = func(cur interface{}) interface{} {
+			if c, ok := cur.(*CtxObj); ok {
+				return ctxOf(c.ID%7 + 1)
+			}
+			return ctxOf(5)
+		}
+	}
+	if f != nil && f.MutateToks {
+		sess.Mutate = e.g.MutateToken
+	}
+	defer func() {
+		// the swap is part of this call only: put the parser's Context back
+		if f != nil && f.CtxSwapAt > 0 {
+			p.SetContext(savedCtx)
+			sess.Ctx = savedCtx
+		}
+	}()
 	gsim.Cur().Steps = 0
 	scans := 0
 	next := e.tokenSource(in, lex, sess, &scans, sp, cache)
@@ -359,7 +387,7 @@ func (e *env) newLexFor(in *Input, ctx interface{}) Lexer {
 	if in.UseTokens || !e.g.HasLexer() {
 		return nil
 	}
-	l := e.lexerFor(in.Text, in.FromFile)
+	l := e.lexerForSp(in.Text, in.FromFile, in.Spelling)
 	if ctx != nil {
 		l.SetContext(ctx)
 	}
@@ -368,7 +396,9 @@ func (e *env) newLexFor(in *Input, ctx interface{}) Lexer {
 
 // lexerFor creates a lexer over text, through NewLexerFile if asked to.  The file
 // name is a function of the text, so a used and a fresh lexer see the same path.
-func (e *env) lexerFor(text string, fromFile bool) Lexer {
+func (e *env) lexerFor(text string, fromFile bool) Lexer { return e.lexerForSp(text, fromFile, 0) }
+
+func (e *env) lexerForSp(text string, fromFile bool, spelling int) Lexer {
 	if !fromFile {
 		return e.g.NewLexer([]byte(text))
 	}
@@ -377,7 +407,7 @@ func (e *env) lexerFor(text string, fromFile bool) Lexer {
 		dir = os.TempDir()
 	}
 	h := digestAdd(14695981039346656037, text)
-	path := dir + "/src-" + strconv.FormatUint(h, 16) + ".txt"
+	path := dir + []string{"/", "/./", "//"}[spelling%3] + "src-" + strconv.FormatUint(h, 16) + ".txt"
 	if _, err := os.Stat(path); err != nil {
 		if err := os.WriteFile(path, []byte(text), 0o644); err != nil {
 			panic("harness: cannot write source file: " + err.Error())
